@@ -1,6 +1,7 @@
 package interp
 
 import (
+	"os"
 	"fmt"
 	"strings"
 
@@ -71,6 +72,7 @@ var c03Expected = map[string]c03Expect{
 	"false || out e -> cast str":                                        {out: "e\n"},
 	"function vtf { out yes; return 1 }; vtf -> if { out T } { out F }": {out: "F\n"},
 	"function vse { out ${out sub} -> null; err first }; vse -> out mid; err second": {out: "mid\n", err: "first\nsecond\n", hasErr: true},
+	"function vlong { a [1..300] -> foreach i { out $i -> null }; err first }; vlong -> out mid; err second": {out: "mid\n", err: "first\nsecond\n", hasErr: true},
 	"a [1..9] -> foreach v { out $v } -> set x; out $x":                              {out: "1\n2\n3\n4\n5\n6\n7\n8\n9\n"},
 	"a [1..9] -> foreach v { out $v } -> count":                                      {out: "9"},
 	"a [1..9] -> foreach v { out $v } -> regexp m/[3-6]/":                            {out: "3\n4\n5\n6\n"},
@@ -149,15 +151,31 @@ func c03Scenario(prog string, free Result) *sched.Scenario {
 	}}
 }
 
+// c03Long: programs run under the two default schedules only (deviation bound 0). Their point is length: the
+// upstream stage still has thousands of steps (hundreds of forced switches) to go when the downstream stage is
+// done, so a wait that gives up after N polls is exposed without any deviation — and exploring deviations of
+// a 50 000-step execution is out of reach anyway.
+var c03Long = []string{
+	"function vlong { a [1..300] -> foreach i { out $i -> null }; err first }; vlong -> out mid; err second",
+}
+
 var prodMaxBuf = streams.DefaultMaxBufferSize
 
 func c03Scenarios(quick bool) []*sched.Scenario {
-	var out []*sched.Scenario
 	progs := c03Programs(quick)
 	for _, p := range c03SmallBuf {
 		progs = append(progs, smallBufPrefix+p)
 	}
+	return c03ScenariosOf(progs)
+}
+
+func c03ScenariosOf(progs []string) []*sched.Scenario {
+	var out []*sched.Scenario
+	only := os.Getenv("VERIF_C03_ONLY") // debugging aid: only the programs containing this text
 	for _, p := range progs {
+		if only != "" && !strings.Contains(p, only) {
+			continue
+		}
 		ResetGlobals()
 		// the reference result is the free-running one with production-size pipes
 		src := strings.TrimPrefix(p, smallBufPrefix)
@@ -175,7 +193,7 @@ func c03Scenarios(quick bool) []*sched.Scenario {
 func init() {
 	vlib.Register(&vlib.Check{
 		ID: "C03", Engine: "E1",
-		Rule: "each listed sequential murex program (stages out/tout/a/%[] x filters foreach/format/msort/index/match/count/cast/set/regexp, if/switch/function/try/&&/||) is executed by the real interpreter (whole module instrumented) under the controlled scheduler; ALL schedules with at most B deviations from the default schedule (a deviation = a preemption, offered at operations on shared-visible objects (streams, process table, wait channels, variable tables, goroutine start, or a forced switch to a thread other than the lowest-numbered enabled one) are enumerated by stateless DFS; every schedule must terminate and give the same (stdout, stderr, exit number) as the free-running execution (and, for the programs with a literal expectation, that expectation); non-trivial = schedules with at least one deviation",
+		Rule: "each listed sequential murex program (stages out/tout/a/%[] x filters foreach/format/msort/index/match/count/cast/set/regexp, if/switch/function/try/&&/||) is executed by the real interpreter (whole module instrumented) under the controlled scheduler; ALL schedules with at most B deviations from the default schedule (a deviation = a preemption, offered at operations on shared-visible objects (streams, process table, wait channels, variable tables, goroutine start, or a forced switch to a thread other than the lowest-numbered enabled one) are enumerated by stateless DFS (plus one long program — an upstream stage of 300 loop iterations in front of a stage that ignores its stdin — under the two default schedules only); every schedule must terminate and give the same (stdout, stderr, exit number) as the free-running execution (and, for the programs with a literal expectation, that expectation); non-trivial = schedules with at least one deviation",
 		Run: func(c *vlib.Ctx) {
 			Init(c.WorkDir)
 			b := 1
@@ -183,10 +201,13 @@ func init() {
 				b = 2
 			}
 			sched.RunAllDev(c, c03Scenarios(c.Quick()), b)
+			if c.Shard == 0 {
+				sched.RunAllDevWhole(c, c03ScenariosOf(c03Long), 0)
+			}
 		},
 		Replay: func(c *vlib.Ctx, w string) {
 			Init(c.WorkDir)
-			sched.Replay(c, c03Scenarios(false), w)
+			sched.Replay(c, append(c03Scenarios(false), c03ScenariosOf(c03Long)...), w)
 		},
 		Assumptions: []string{"preemptions only at shared-visible operations (listed in echecks/interp/interp.go); forced switches everywhere", "builtin vocabulary as listed; no external commands, no timers", "programs have one writer per stream at a time"},
 	})
